@@ -843,7 +843,7 @@ func hrefOps(c *hx.Ctx, from, n int) {
 }
 
 func Run(c *hx.Ctx) {
-	c.Rep.Rule = "packages: XLSX / PPTX / EPUB 2+3 written by the harness's own writers from a logical package = declared list (1-6 parts, each with a unique text token; states ok/missing/malformed/dangling/wrong-kind), decoy parts (unreferenced; some listed in rels/manifest but not declared), XLSX/PPTX markup in namespace flavours from their own stream (flavour.go; 45% transitional, 20% ISO/IEC 29500 Strict = purl.oclc.org namespaces for main/drawing/relationships and every relationship Type with conformance=\"strict\", the rest the relationships namespace under another prefix, declared on each referencing element instead of the root, the main namespace prefixed (xlsx) or default (pptx), alone or combined with Strict): same declaration, same expectations, XLSX sheetId values a random permutation (non-ascending, sparse) unrelated to position and to r:id, PPTX speaker-notes parts with their own unique token behind the slide's own relationship part (for readable, unreadable and decoy slides; conventional/renamed/absolute targets, numbered independently of the slides), part paths nested/renamed/absolute/with dot segments, file numbers a random permutation of the declared order, ZIP member order another random permutation, optional parts (rels, sharedStrings, docProps, mimetype, NCX, nav) randomly absent; hrefs percent-encoded in 4 styles incl. space, unicode, '+', '%', '#'; near-name members in a quarter of the packages (1-2 members whose name differs from a declared part's only in the letter case of one path segment, in NFC/NFD form, or that is the EPUB href without percent-decoding; as a second declared part, an unreferenced left-over or a listed left-over, on either side in ZIP order, also beside a missing declared member). call sequences: on one opened reader of every package that opens, 2-6 generated calls (xlsx ExtractOptions.Sheets / pptx ExtractOptions.SlideNumbers selections through TextWithOptions, MarkdownWithOptions, MarkdownWithRAGOptions: a single part that is not the first, suffix, ascending non-prefix subset, reversed list, permutation, subset in any order, prefix, and lenient selections with out-of-range or repeated indices; epub TextWithOptions/MarkdownWithOptions with the 4 navigation modes; Text, Markdown, Document, part accessors, Tables/SheetByName/Metadata interleaved, repeated), the statement evaluated on every accessor after every call and against a fresh reader, and the model compared once more with the used reader. reader API model (api.go): per PPTX package op c18.pptxn (which notes part each presented slide carries; slide relationship parts are in the parse table with their Types, notes parts as a kind of their own; one package in five has an irregular notes plumbing: notes part or slide relationship part not well-formed, notesSlide relationship naming a slide, root-relative target without '/', two notesSlide relationships, ISO-strict relationship type, targets with dot segments / doubled or trailing slashes / percent signs, with a notes part put where they lead or under the literal name; fallback decks carry candidate names that are not plain slideN.xml, some with notes), and per package op c18.api: ONE opened reader, a history of 3-7 calls (count, names, Sheet/Slide(i) with i from -1 to n, SheetByName, TextWithOptions / MarkdownWithOptions / MarkdownWithRAGOptions with the selection classes above or none and random flags and delimiters, Document, Chapters, epub navigation modes -1..9) interleaved with up to two front-door calls tabula.Open(f).PageCount() / .Pages(..).ExcludeHeaders().ExcludeFooters().Text() / .Document(); replies compared byte for byte (texts) or as sequences of part ids found through the unique tokens (markdown, pages); what each part's bytes parse to is passed to the model keyed by content id (sheet grids and slide bodies from the reader, notes text, chapter text/markdown/page count from htmldoc run on the member bytes the harness wrote); slides carry bulleted, numbered and indented paragraphs and footer / slide-number / date / header placeholders chosen by a hash of the token; one package in sixteen carries members the front door's content sniffing looks at (a mimetype member naming this, another or no known format, META-INF/container.xml or another OOXML main part beside the package's own: refused by tabula.Open where the content names another format, no oracle verdict there, the model's admission step must agree); one EPUB in four has 1-2 text-less chapters in the spine (textless.go: empty body, white space, an image only, an SVG cover, a comment only, empty blocks; first, inside or last; no token): declared readable parts, i.e. pages of their own — counted, held by the reader at their position, a Document page there that shows no part's text, every later chapter on its own page (p.pages()/p.slots()); three EPUBs in ten have 1-3 spine entries that list an already listed resource again (repeats.go: the same idref again, a second manifest item with the same href, a second manifest item whose href is spelled differently — a needlessly percent-encoded character, a './' segment, an 'x/../' detour — and resolves to the same member; right behind the first listing or further down; either of the two items first; also of a resource whose member is missing; one in twelve of those lists the resource 40-300 times): such a resource is one part at its first position in the logical package, which is what all oracles expect; one EPUB in four lists 1-2 FURTHER package documents in container.xml after the default rendition (renditions.go: OPF media type or none; a package document with content documents of its own, one that lists the default rendition's content documents again in another order or only some of them, both, or a left-over entry whose package document is absent; in its own directory, beside the default package document, under the same file name elsewhere, sorting before or after it by name, anywhere in ZIP order): the first listed package document is the declaration, the others declare nothing (their own chapters are decoys; C18/epub-default-rendition compares the members the chapters are read from with the default rendition's spine); one declared XLSX sheet / PPTX slide in seven and one PPTX notes part in six has a part name with percent signs (pctnames.go: %20, %25, UTF-8, %2B, over-encoded letters so that the decoded name is a conventional sheetN/slideN.xml, doubly encoded %2520, %2F, lower-case hex, escaped directories, and percent signs that are no escape), the ZIP member carrying that name byte for byte as OPC maps part names to ZIP items, relative or package-absolute target; for half of those with real escapes a second member under the percent-DECODED name (near-name kind pct-decoded: unreferenced left-over, listed left-over, or a declared part of its own whose target spells the decoded name literally), also beside a missing declared member. attribute-level binding (bind.go, op c18.bind): small XLSX / PPTX packages whose declaring elements (<sheet>, <sldId>, <Relationship>) reach the model as attribute lists (namespace URI, local name, value) in document order — r:id under the Transitional or Strict relationships namespace, any prefix, declared on the root or the element, and a malformed stream (foreign or no namespace, both namespaces, the same expanded name twice, empty values, a prefix named id, foreign Id/Target/name attributes, duplicate relationship Ids, relationships without Id, missing / malformed parts, no relationship part, no sldIdLst, a member under the default sheet name). href ops: structured (reference built from the member it denotes) and junk strings. non-trivial = the package opened with at least one part; distinct by op line"
+	c.Rep.Rule = "packages: XLSX / PPTX / EPUB 2+3 written by the harness's own writers from a logical package = declared list (1-6 parts, each with a unique text token; states ok/missing/malformed/dangling/wrong-kind), decoy parts (unreferenced; some listed in rels/manifest but not declared), XLSX/PPTX markup in namespace flavours from their own stream (flavour.go; 45% transitional, 20% ISO/IEC 29500 Strict = purl.oclc.org namespaces for main/drawing/relationships and every relationship Type with conformance=\"strict\", the rest the relationships namespace under another prefix, declared on each referencing element instead of the root, the main namespace prefixed (xlsx) or default (pptx), alone or combined with Strict): same declaration, same expectations, XLSX sheetId values a random permutation (non-ascending, sparse) unrelated to position and to r:id, PPTX speaker-notes parts with their own unique token behind the slide's own relationship part (for readable, unreadable and decoy slides; conventional/renamed/absolute targets, numbered independently of the slides), part paths nested/renamed/absolute/with dot segments, file numbers a random permutation of the declared order, ZIP member order another random permutation, optional parts (rels, sharedStrings, docProps, mimetype, NCX, nav) randomly absent; hrefs percent-encoded in 4 styles incl. space, unicode, '+', '%', '#'; near-name members in a quarter of the packages (1-2 members whose name differs from a declared part's only in the letter case of one path segment, in NFC/NFD form, or that is the EPUB href without percent-decoding; as a second declared part, an unreferenced left-over or a listed left-over, on either side in ZIP order, also beside a missing declared member). call sequences: on one opened reader of every package that opens, 2-6 generated calls (xlsx ExtractOptions.Sheets / pptx ExtractOptions.SlideNumbers selections through TextWithOptions, MarkdownWithOptions, MarkdownWithRAGOptions: a single part that is not the first, suffix, ascending non-prefix subset, reversed list, permutation, subset in any order, prefix, and lenient selections with out-of-range or repeated indices; epub TextWithOptions/MarkdownWithOptions with the 4 navigation modes; Text, Markdown, Document, part accessors, Tables/SheetByName/Metadata interleaved, repeated), the statement evaluated on every accessor after every call and against a fresh reader, and the model compared once more with the used reader. reader API model (api.go): per PPTX package op c18.pptxn (which notes part each presented slide carries; slide relationship parts are in the parse table with their Types, notes parts as a kind of their own; one package in five has an irregular notes plumbing: notes part or slide relationship part not well-formed, notesSlide relationship naming a slide, root-relative target without '/', two notesSlide relationships, ISO-strict relationship type, targets with dot segments / doubled or trailing slashes / percent signs, with a notes part put where they lead or under the literal name; fallback decks carry candidate names that are not plain slideN.xml, some with notes), and per package op c18.api: ONE opened reader, a history of 3-7 calls (count, names, Sheet/Slide(i) with i from -1 to n, SheetByName, TextWithOptions / MarkdownWithOptions / MarkdownWithRAGOptions with the selection classes above or none and random flags and delimiters, Document, Chapters, epub navigation modes -1..9) interleaved with up to two front-door calls tabula.Open(f).PageCount() / .Pages(..).ExcludeHeaders().ExcludeFooters().Text() / .Document(); replies compared byte for byte (texts) or as sequences of part ids found through the unique tokens (markdown, pages); what each part's bytes parse to is passed to the model keyed by content id (sheet grids and slide bodies from the reader, notes text, chapter text/markdown/page count from htmldoc run on the member bytes the harness wrote); slides carry bulleted, numbered and indented paragraphs and footer / slide-number / date / header placeholders chosen by a hash of the token; one package in sixteen carries members the front door's content sniffing looks at (a mimetype member naming this, another or no known format, META-INF/container.xml or another OOXML main part beside the package's own: refused by tabula.Open where the content names another format, no oracle verdict there, the model's admission step must agree); one EPUB in four has 1-2 text-less chapters in the spine (textless.go: empty body, white space, an image only, an SVG cover, a comment only, empty blocks; first, inside or last; no token): declared readable parts, i.e. pages of their own — counted, held by the reader at their position, a Document page there that shows no part's text, every later chapter on its own page (p.pages()/p.slots()); three EPUBs in ten have 1-3 spine entries that list an already listed resource again (repeats.go: the same idref again, a second manifest item with the same href, a second manifest item whose href is spelled differently — a needlessly percent-encoded character, a './' segment, an 'x/../' detour — and resolves to the same member; right behind the first listing or further down; either of the two items first; also of a resource whose member is missing; one in twelve of those lists the resource 40-300 times): such a resource is one part at its first position in the logical package, which is what all oracles expect; one EPUB in four lists 1-2 FURTHER package documents in container.xml after the default rendition (renditions.go: OPF media type or none; a package document with content documents of its own, one that lists the default rendition's content documents again in another order or only some of them, both, or a left-over entry whose package document is absent; in its own directory, beside the default package document, under the same file name elsewhere, sorting before or after it by name, anywhere in ZIP order): the first listed package document is the declaration, the others declare nothing (their own chapters are decoys; C18/epub-default-rendition compares the members the chapters are read from with the default rendition's spine); one declared XLSX sheet / PPTX slide in seven and one PPTX notes part in six has a part name with percent signs (pctnames.go: %20, %25, UTF-8, %2B, over-encoded letters so that the decoded name is a conventional sheetN/slideN.xml, doubly encoded %2520, %2F, lower-case hex, escaped directories, and percent signs that are no escape), the ZIP member carrying that name byte for byte as OPC maps part names to ZIP items, relative or package-absolute target; for half of those with real escapes a second member under the percent-DECODED name (near-name kind pct-decoded: unreferenced left-over, listed left-over, or a declared part of its own whose target spells the decoded name literally), also beside a missing declared member. attribute-level binding (bind.go, op c18.bind): small XLSX / PPTX packages whose declaring elements (<sheet>, <sldId>, <Relationship>) reach the model as attribute lists (namespace URI, local name, value) in document order — r:id under the Transitional or Strict relationships namespace, any prefix, declared on the root or the element, and a malformed stream (foreign or no namespace, both namespaces, the same expanded name twice, empty values, a prefix named id, foreign Id/Target/name attributes, duplicate relationship Ids, relationships without Id, missing / malformed parts, no relationship part, no sldIdLst, a member under the default sheet name). foreign id attributes (foreignid.go, oracle only): regular workbooks of either conformance class (1-5 sheets, every part present, shuffled relationships, left-over members under the default names sheet<i>.xml in two of three) in which at least one <sheet> carries beside r:id an attribute of local name id that is not the relationship id — a foreign o:id / x14:id (value: another sheet's relationship id, its own, an unknown one, no id at all) or the declaration xmlns:id of a prefix called id, before or after r:id, alone or together; expectation = the declared list. href ops: structured (reference built from the member it denotes) and junk strings. non-trivial = the package opened with at least one part; distinct by op line"
 	n := c.N(660, 9900)          // (600, 9000) before the correspondence-only variants of api.go took a share of the packages
 	only := os.Getenv("C18_FMT") // debugging aid: restrict the stream to one format
 	for i := 0; i < n; i++ {
@@ -858,6 +858,9 @@ func Run(c *hx.Ctx) {
 	if only == "" || only == "bind" {
 		bindOps(c, 0, c.N(400, 6000))
 	}
+	if only == "" || only == "fid" {
+		foreignIDCases(c, 0, c.N(150, 2500))
+	}
 }
 
 // Replay re-runs one recorded failing case on the implementation.
@@ -869,6 +872,10 @@ func Replay(c *hx.Ctx, k map[string]interface{}) {
 	}
 	if f, _ := k["fmt"].(string); f == "bind" {
 		bindOps(c, int(idx), 1)
+		return
+	}
+	if f, _ := k["fmt"].(string); f == "fid" {
+		foreignIDCases(c, int(idx), 1)
 		return
 	}
 	RunCase(c, int(idx), true)
